@@ -103,6 +103,69 @@ def local_names(fnode) -> List[str]:
     return order
 
 
+def local_kinds(fnode) -> Dict[str, str]:
+    """kind of the first binding of each local: 'for', 'with', 'except', 'assign:<value node type>', 'aug', 'def', 'import', 'other'"""
+    kinds = {}
+    params = set(_params(fnode))
+
+    def note(nm, k):
+        if nm not in params and nm not in kinds:
+            kinds[nm] = k
+
+    def names_of(t):
+        return [n.id for n in ast.walk(t) if isinstance(n, ast.Name)]
+    for n in _own_nodes(fnode):
+        if isinstance(n, (ast.For, ast.AsyncFor)):
+            for nm in names_of(n.target):
+                note(nm, "for")
+        elif isinstance(n, ast.Assign):
+            multi = any(isinstance(t, (ast.Tuple, ast.List)) for t in n.targets)
+            for t in n.targets:
+                for nm in [x.id for x in ast.walk(t) if isinstance(x, ast.Name) and isinstance(x.ctx, ast.Store)]:
+                    note(nm, "unpack" if multi else "assign:" + type(n.value).__name__)
+        elif isinstance(n, ast.AnnAssign) and isinstance(n.target, ast.Name):
+            note(n.target.id, "assign:" + (type(n.value).__name__ if n.value is not None else "None"))
+        elif isinstance(n, ast.AugAssign) and isinstance(n.target, ast.Name):
+            note(n.target.id, "aug")
+        elif isinstance(n, (ast.With, ast.AsyncWith)):
+            for it in n.items:
+                if it.optional_vars is not None:
+                    for nm in names_of(it.optional_vars):
+                        note(nm, "with")
+        elif isinstance(n, ast.ExceptHandler) and n.name:
+            note(n.name, "except")
+        elif isinstance(n, (ast.FunctionDef, ast.AsyncFunctionDef, ast.ClassDef)) and n is not fnode:
+            note(n.name, "def")
+        elif isinstance(n, (ast.Import, ast.ImportFrom)):
+            for a in n.names:
+                note((a.asname or a.name).split(".")[0], "import")
+        elif isinstance(n, ast.NamedExpr):
+            note(n.target.id, "assign:" + type(n.value).__name__)
+    return kinds
+
+
+def match_locals(fnode, ref: dict):
+    """pairs (current unknown local -> reference local that is gone) with the same kind of first binding, in order; and the unknown locals left over"""
+    cur = local_names(fnode)
+    refl = ref.get("locals", [])
+    unknown = [x for x in cur if x not in refl]
+    missing = [x for x in refl if x not in cur]
+    rk = ref.get("local_kinds")
+    if rk is None:
+        return list(zip(unknown, missing)), unknown[len(missing):]
+    ck = local_kinds(fnode)
+    pairs, left = [], []
+    free = list(missing)
+    for u in unknown:
+        m = next((m for m in free if rk.get(m) == ck.get(u)), None)
+        if m is None:
+            left.append(u)
+        else:
+            free.remove(m)
+            pairs.append((u, m))
+    return pairs, left
+
+
 def all_names(fnode) -> set:
     out = set()
     for n in ast.walk(fnode):
@@ -235,7 +298,7 @@ def scope_inventory(fnode) -> Dict[str, List[str]]:
 
 def shape(fnode) -> dict:
     from . import normalise2 as N2
-    return {"locals": local_names(fnode), "eqs": eq_texts(fnode), "ifs": if_texts(fnode), "scopes": scope_inventory(fnode),
+    return {"locals": local_names(fnode), "local_kinds": local_kinds(fnode), "eqs": eq_texts(fnode), "ifs": if_texts(fnode), "scopes": scope_inventory(fnode),
             "guards": N2.guard_forms(fnode), "ifs_noelse": N2.noelse_texts(fnode), "ifexps": N2.ifexp_texts(fnode),
             "scopes_all": sorted({canon(n) for n in ast.walk(fnode) if isinstance(n, _COMPS)})}
 
@@ -281,12 +344,11 @@ def normalise_function(fnode, ref: dict, parts=("locals", "eqs", "ifs")) -> int:
     # ---- 1. locals ------------------------------------------------------------------------
     cur = local_names(fnode) if "locals" in parts else []
     refl = ref.get("locals", [])
-    unknown = [x for x in cur if x not in refl]
-    missing = [x for x in refl if x not in cur]
-    if unknown and missing:
+    pairs_, _left = match_locals(fnode, ref) if "locals" in parts else ([], [])
+    if pairs_:
         used = all_names(fnode)
         mapping = {}
-        for u, m in zip(unknown, missing):
+        for u, m in pairs_:
             if m in used:
                 continue
             if m == "_" and not u.startswith("_"):
@@ -423,6 +485,30 @@ class _PushNot(ast.NodeTransformer):
                 return ast.copy_location(ast.Tuple(elts=[], ctx=ast.Load()), node)
         return node
 
+    def visit_JoinedStr(self, node):
+        # f'..{f"x{a}"}..' is f'..x{a}..': nested f-strings without conversion / format spec are spliced, adjacent literals merged
+        self.generic_visit(node)
+        parts, changed = [], False
+        for v in node.values:
+            if isinstance(v, ast.FormattedValue) and isinstance(v.value, ast.JoinedStr) and v.conversion == -1 and v.format_spec is None:
+                parts.extend(v.value.values)
+                changed = True
+            elif isinstance(v, ast.FormattedValue) and isinstance(v.value, ast.Constant) and isinstance(v.value.value, str) and v.conversion == -1 and v.format_spec is None:
+                parts.append(ast.Constant(value=v.value.value))
+                changed = True
+            else:
+                parts.append(v)
+        if changed:
+            merged = []
+            for p_ in parts:
+                if merged and isinstance(p_, ast.Constant) and isinstance(merged[-1], ast.Constant) and isinstance(p_.value, str) and isinstance(merged[-1].value, str):
+                    merged[-1] = ast.Constant(value=merged[-1].value + p_.value)
+                else:
+                    merged.append(p_)
+            node.values = merged
+            self.n += 1
+        return node
+
     def visit_Assign(self, node):
         # `t = t + e` / `t = t - e` is written `t += e` / `t -= e` (the repository's own idiom for accumulators)
         self.generic_visit(node)
@@ -468,6 +554,9 @@ def normalise_module(tree, module_name: str) -> int:
                         n += step(fn, r)
                     except Exception:   # pragma: no cover
                         pass
+                pn2 = _PushNot()
+                pn2.visit(fn)
+                ast.fix_missing_locations(fn)
     return n
 
 
